@@ -49,11 +49,13 @@ def report(rep, rule, key, finals_pack, check, what, where):
         for s in finals:
             n += 1
             try:
-                ok, detail = check(s)
+                r = check(s)
             except Unknown as e:
                 rep.undecided(rule, key, 'not interpretable: %s' % e, where=where)
                 continue
-            rep.ob(rule, key, ok, '%s: %s' % (what, detail), where=where, facts={'trace': tr.text(), 'path_condition': [repr(c) for c in s.cond]})
+            ok, detail = r[0], r[1]
+            k2 = key + ((':' + r[2]) if (not ok and len(r) > 2 and r[2]) else '')
+            rep.ob(rule, k2, ok, '%s: %s' % (what, detail), where=where, facts={'trace': tr.text(), 'path_condition': [repr(c) for c in s.cond]})
     if n == 0:
         rep.undecided(rule, key, 'no returning path / no emitted code for this kind and type class', where=where)
 
@@ -143,7 +145,11 @@ def check_cast(frm, to):
                 ok = narrow_ok(E[1], E[2], E[3], a)
                 return ok, 'result %r is not a truncating conversion wide enough for %s followed by the %s extension' % (a, E[1], E[1])
             E = canon_cast(canon(E))
-            return a == E, 'result in %%rax (low %d bits) is %r, prescribed %r' % (w, a, E)
+            tag = None
+            if to == 'bool' and a != E:
+                inner = a[3] if (isinstance(a, tuple) and a[0] in ('zx', 'sx') and len(a) > 3) else a
+                tag = 'is-' + str(inner[0]) if isinstance(inner, tuple) else None
+            return a == E, 'result in %%rax (low %d bits) is %r, prescribed %r' % (w, a, E), tag
         if exp[0] == 'fp':
             _, prec, E = exp
             if prec == 80:
@@ -194,7 +200,7 @@ def special_u64_to_fp(prec):
             else:
                 if prec == 80:
                     two64 = ('f2f', 32, 80, ('frombits', 32, C(0x5f800000)))
-                    from .x86 import norm_bin as nb
+                    pass
                     want = ('fbin', 'add', 80) + tuple(sorted([base, two64], key=repr))
                     got = val
                     if got and got[0] == 'fbin' and got[1] == 'add':
@@ -234,12 +240,15 @@ def r015(cg, rep, which):
                             ok, detail = special_u64_to_fp(exp[2])(finals)
                         except Unknown as e:
                             rep.undecided(rule, key, str(e), where=where); continue
-                        rep.ob(rule, key, ok, 'conversion unsigned long -> %s: %s' % (to, detail), where=where, facts={'trace': tr.text()})
+                        tag = 'signed-conversion' if (len(finals) == 1) else 'wrong-sequence'
+                        rep.ob(rule, key if ok else key + ':' + tag, ok, 'conversion unsigned long -> %s: %s' % (to, detail), where=where, facts={'trace': tr.text()})
                     else:
                         # fp -> u64 needs a sequence that handles values >= 2^63
                         ok = len(finals) >= 2
                         s = finals[0]
-                        rep.ob(rule, key, ok, 'conversion %s -> unsigned long is the signed 64-bit truncating conversion %r: values >= 2^63 give 0x8000000000000000' % (frm, canon_cast(canon(s.reg['rax']))), where=where, facts={'trace': tr.text()})
+                        got = canon_cast(canon(s.reg['rax']))
+                        tag = 'signed-64-bit-conversion' if (isinstance(got, tuple) and got[0] == 'fp2int' and got[1] == 64) else 'other'
+                        rep.ob(rule, key if ok else key + ':' + tag, ok, 'conversion %s -> unsigned long is the signed 64-bit truncating conversion %r: values >= 2^63 give 0x8000000000000000' % (frm, canon_cast(canon(s.reg['rax']))), where=where, facts={'trace': tr.text()})
                 continue
             report(rep, rule, key, pack, check_cast(frm, to), 'conversion %s -> %s' % (frm, to), where)
 
@@ -255,3 +264,8 @@ def run(P, rep, tier):
     r016(cg, rep)
     rep.rule('R01.5', 'every integer-to-integer (and to _Bool) conversion emits the extension/truncation the register convention requires for (from,to)', floor=90)
     r015(cg, rep, 'int')
+    from ..lib_types import r_common_type, r_add_type
+    rep.rule('R01.1', 'get_common_type returns the C11 6.3.1.8 type for every ordered pair of integer types (promotion of narrow types, rank, signedness)', floor=100)
+    r_common_type(P, rep, 'R01.1', 'int')
+    rep.rule('R01.2', 'add_type gives every operator the C11 result type and wraps the operands in the prescribed conversions, for every pair of integer operand types', floor=300)
+    r_add_type(P, rep, 'R01.2', 'int')
